@@ -62,6 +62,26 @@ def main():
             die("mutant anchor not unique/present in %s: %r (count %d)" % (e["file"], e["old"][:60], s.count(e["old"])))
         edited[e["file"]] = s.replace(e["old"], e["new"])
 
+    # VERIF_PATCH=<unified diff>: apply it to copies of the current files (the seeded changes of
+    # /verif/seeded are checked this way without touching /repo)
+    pf = os.environ.get("VERIF_PATCH")
+    if pf:
+        import subprocess, tempfile, shutil
+        rels = [l[6:].strip() for l in open(pf) if l.startswith("+++ b/")]
+        tmp = tempfile.mkdtemp(dir=os.path.join(VERIF, ".build"))
+        try:
+            for rel in rels:
+                os.makedirs(os.path.dirname(os.path.join(tmp, rel)), exist_ok=True)
+                with open(os.path.join(tmp, rel), "w") as f:
+                    f.write(cur(rel))
+            r = subprocess.run(["patch", "-p1", "-s", "-d", tmp, "-i", os.path.abspath(pf)], capture_output=True, text=True)
+            if r.returncode != 0:
+                die("VERIF_PATCH does not apply: " + r.stdout + r.stderr)
+            for rel in rels:
+                edited[rel] = read(os.path.join(tmp, rel))
+        finally:
+            shutil.rmtree(tmp, ignore_errors=True)
+
     base = {}
     # hooks
     hooks = {
